@@ -1389,6 +1389,8 @@ def run_case(env, case_seed, tier, counts, stream="clean", sibling=False):
         return affine_reuse_case(env, case_seed, tier, counts)
     if stream == "rules":
         return rules_case(env, case_seed, tier, counts)
+    if stream == "affine-nonaffine-sum":
+        return nonaffine_sum_case(env, case_seed, tier, counts)
     rng = random.Random(case_seed)
     order = gen_signature(rng)
     if sibling:
@@ -1816,6 +1818,96 @@ def triangular_ops_stream(ctx, n):
     ctx.count("triangular-ops:cases", n)
 
 
+KF_AFFINE_UNION = "KF-affine-inputs-union"
+WHAT[ "affine-nonaffine-sum"] = ("affine.affine_inputs unions both sides of + / -, so x := u*u + a*u + b is classified affine in "
+                                 "u and Gaussian._eager_subs_affine linearises it by probing (x ~ (1+a) u + b): g(x=u*u+u) is "
+                                 "a Gaussian in u with wrong values instead of a lazy substitution")
+
+
+def nonaffine_sum_case(env, case_seed, tier, counts):
+    """A sum whose one side is NON-affine in a variable the other side is affine in (u*u + a*u + b, a*u - u*u, …),
+    substituted for a real input of a Gaussian: decline-or-right.  Whatever comes back (a lazy Subs after commit
+    30afbee, a Gaussian before it) is evaluated at a point of u and must equal g at the substituted value."""
+    rng = random.Random(case_seed)
+    order = [("r", "x", ())] + ([("r", "z", rng.choice(SHAPES))] if rng.random() < 0.5 else []) \
+        + ([("b", "i", 2)] if rng.random() < 0.5 else [])
+    rng.shuffle(order)
+    dim = sum(numel(sh) for kind, _, sh in order if kind == "r")
+    g, spec, exact, desc = make_gaussian(rng, order, rank=rng.randint(1, 2 * dim))
+    a_, b_ = rng.choice([-1, 0.5, 1, 2]), rng.choice([-1, 0, 0.5, 1])
+    u = Variable("u", Real)
+    expr = rng.choice([lambda: u * u + u * a_ + b_, lambda: u * a_ - u * u, lambda: (u * u + b_) + u])()
+    history = [desc, dict(op="subs-nonaffine-sum", a=a_, b=b_, expr=str(expr))]
+    res = g(x=expr)
+    counts("nonaffine-sum:" + ("eager-gaussian" if decompose(res) is not None else "lazy-subs"))
+    uv = rng.choice([-1.5, -0.5, 0.5, 2.0])
+    pt = {k: dy_array(rng, sh) for k, sh in spec.reals.items() if k != "x"}
+    xv = float(expr(u=Tensor(np.array(uv))).data)
+    try:
+        got = value_table(res(u=Tensor(np.array(uv)), **{k: Tensor(v) for k, v in pt.items()}), spec.batch)
+    except Declined:
+        counts("nonaffine-sum:lazy")
+        return 1, None, None
+    full = {k: [F(float(t)) for t in np.asarray(v).reshape(-1)] for k, v in pt.items()}
+    full["x"] = [F(xv)]
+    for p in batch_points(spec.batch, rng):
+        want = spec.at(p)(full)
+        if not close(F(float(got(p))), want, 0 if exact else RTOL, abs(float(want))):
+            cf = CaseFail("C12.affine-nonaffine-sum-wrong-value", expected=str(want), got=str(F(float(got(p)))), point=p, u=uv)
+            cf.kw["witness"] = dict(case_seed=case_seed, stream="affine-nonaffine-sum", tier=tier, history=history)
+            raise cf
+    counts("op:nonaffine-sum-correct")
+    return 1, None, None
+
+
+def affine_purity_stream(ctx, n):
+    """affine.affine_inputs on sums / differences: a real variable is affine in a +- b iff it is affine-or-absent in
+    both sides and affine in at least one (model computed on the generated expression tree)."""
+    from funsor.affine import affine_inputs
+    rng = ctx.rng
+    names = ["u", "v", "w"]
+
+    def leaf():
+        k = rng.choice(names)
+        V = Variable(k, Real)
+        kind = rng.choice(["var", "scaled", "square", "const", "product", "neg"])
+        if kind == "var":
+            return V, {k}, {k}, k
+        if kind == "scaled":
+            return V * 2.0, {k}, {k}, f"2{k}"
+        if kind == "neg":
+            return -V, {k}, {k}, f"-{k}"
+        if kind == "square":
+            return V * V, set(), {k}, f"{k}^2"
+        if kind == "product":
+            k2 = rng.choice([n_ for n_ in names if n_ != k])
+            return V * Variable(k2, Real), set(), {k, k2}, f"{k}{k2}"
+        return Tensor(np.array(1.5)), set(), set(), "c"
+
+    def tree(depth):
+        if depth == 0 or rng.random() < 0.3:
+            return leaf()
+        a, aa, ai, at = tree(depth - 1)
+        b, ba, bi, bt = tree(depth - 1)
+        op = rng.choice(["+", "-"])
+        e = a + b if op == "+" else a - b
+        non = (ai - aa) | (bi - ba)
+        return e, (aa | ba) - non, ai | bi, f"({at}{op}{bt})"
+    for _ in range(n):
+        e, aff, inp, text = tree(rng.choice([1, 2, 2, 3]))
+        if not isinstance(e, Funsor):
+            continue
+        got = set(affine_inputs(e))
+        ctx.case(nontrivial_key=("affine-purity", text) if len(inp) > 1 else None)
+        if got != aff:
+            ctx.fail("input", "C12.affine-inputs-of-sum", witness=dict(expr=text), expected=str(sorted(aff)),
+                     got=str(sorted(got)),
+                     python=("from funsor.terms import Variable\nfrom funsor.domains import Real\n"
+                             "from funsor.affine import affine_inputs\nimport funsor\nfunsor.set_backend('numpy')\n"
+                             "u = Variable('u', Real)\nFAILS = 'u' in affine_inputs(u * u + u)\n"))
+    ctx.count("affine-purity:cases", n)
+
+
 def history_stream(ctx, env, n):
     """History-independence: a chain A, then a sibling chain B over the same ordered input names with the block
     sizes rotated, then A again — every step checked against its spec as usual, and the second run of A must
@@ -1981,6 +2073,15 @@ def _correspond(ctx, use_driver=True, volume=None):
             continue
         if nsteps:
             ctx.case(sample=sample, nontrivial_key=key)
+    for _ in range(30 if ctx.tier == "quick" else 300):
+        seed = ctx.rng.getrandbits(48)
+        try:
+            run_case(env, seed, ctx.tier, ctx.count, stream="affine-nonaffine-sum")
+        except CaseFail as cf:
+            report(ctx, cf, "affine-nonaffine-sum")
+            continue
+        ctx.case(nontrivial_key=("nonaffine-sum", seed))
+    affine_purity_stream(ctx, 60 if ctx.tier == "quick" else 600)
     for key in AVOID:
         finding_stream(ctx, env, key, 12 if ctx.tier == "quick" else 60)
     float_decline_stream(ctx)
